@@ -1,11 +1,13 @@
 ----------------------------- MODULE Trace_Jbd2 -----------------------------
 (* Trace validation for C03.  One behaviour per journal:
 
-     {"e":"load", cfg, jsb, nr, fs0, log, hist}          the abstract journal that gen/jbd2write.py encoded into the image
-     {"e":"recover", obs:[fe1, fe2, fe3], jstart:[..], jseq:[..], nro:[..], stray:[..]}
+     {"e":"load", cfg, jsb, nr, fs0, log, hist}          the abstract journal that gen/jbd2write.py encoded into the image;
+                                                         cfg.tb = {hi, lo}: the tid base of the concretisation (every seq is an offset)
+     {"e":"recover", obs:[fe1, fe2, fe3], jstart:[..], jseq:[{hi, lo}..], nro:[..], stray:[..]}
                                                          target-block versions, journal s_start / s_sequence and needs_recovery read
                                                          back from the image after each front-end
-                                                         (e2fsck -y -E journal_only, e2fsck -fy, debugfs -w -R jr)
+                                                         (e2fsck -y -E journal_only, e2fsck -fy, debugfs -w -R jr); s_sequence as the
+                                                         32-bit value found, in 16-bit halves (hi = -1: no journal superblock found)
 
    TLoad puts the logged journal into the state of Jbd2 (a state of the generator's shape: GroundTruthSound checks
    that `valid` in the history is exactly "all blocks in the log as written" and that every difference is damage
@@ -17,7 +19,8 @@
    Second life of the log (Jbd2Gen), one further behaviour per continued journal:
 
      {"e":"load", ...}                                    the same first-life journal
-     {"e":"replayed", fe, obs, jsb:{start,seq}, nro}      the image front-end `fe` left: the state is set to the OBSERVED
+     {"e":"replayed", fe, obs, jsb:{start,seq}, seq32:{hi,lo}, nro}
+                                                         the image front-end `fe` left: the state is set to the OBSERVED
                                                          post-state (no claim here: the claims about the first replay are made
                                                          by the first behaviour); res = what the spec says about that replay
      {"e":"restart", skew, jsb, nr, fs0, log, hist}      the generator continued on that image from the journal superblock it
@@ -40,7 +43,8 @@ tvars == <<gvars, l>>
 Tr == ndJsonDeserialize(IOEnv.TRACE)
 
 IsEvent(e) == l <= Len(Tr) /\ Tr[l].e = e /\ l' = l + 1
-CfgOf(x) == [L |-> x.cfg.L, csum |-> x.cfg.csum, async |-> x.cfg.async]
+CfgOf(x) == [L |-> x.cfg.L, csum |-> x.cfg.csum, async |-> x.cfg.async, tb |-> [hi |-> x.cfg.tb.hi, lo |-> x.cfg.tb.lo]]
+Halves(x) == [hi |-> x.hi, lo |-> x.lo]
 
 TLoad == /\ IsEvent("load")
          /\ jc' = CfgOf(Tr[l])
@@ -49,20 +53,23 @@ TLoad == /\ IsEvent("load")
          /\ phase' = "dmg" /\ res' = NoRes
          /\ head' = 1 /\ nseq' = 0 /\ ver' = 0 /\ ndmg' = 0 /\ gen' = 1 /\ tid0' = 1 /\ nover' = 0
          /\ Len(Tr[l].log) = Tr[l].cfg.L /\ Tr[l].jsb.start \in 0..Tr[l].cfg.L
+         /\ Tr[l].cfg.tb.hi \in 0..(H16 - 1) /\ Tr[l].cfg.tb.lo \in 0..(H16 - 1)
 
 TRecover == /\ IsEvent("recover") /\ phase = "dmg"
             /\ Recover /\ UNCHANGED <<gen, tid0, nover>>
             /\ \A i \in 1..Len(Tr[l].obs) :
                  /\ Tr[l].obs[i] = fs'                      \* every front-end = transcription of recovery.c; hence all agree
                  /\ Tr[l].jstart[i] = jsb'.start            \* journal empty:
-                 /\ Tr[l].jseq[i] = jsb'.seq                \*   s_start = 0 and the sequence number of *_journal_release after a
-                                                           \*   recovery with this outcome (= JsbAfter unless a deviation was taken)
+                 /\ Halves(Tr[l].jseq[i]) = Conc(jc, jsb'.seq) \* s_start = 0 and the sequence number of *_journal_release after a
+                                                           \*   recovery with this outcome (= JsbAfter unless a deviation was taken),
+                                                           \*   as the 32-bit value on disk: equality modulo 2^32
                  /\ Tr[l].nro[i] = nr'                      \* no longer requests recovery
                  /\ Tr[l].stray[i] = 0                     \* no block outside targets / journal / fs metadata was written
 
 \* ---- second life
 JsbOf(x) == [start |-> x.jsb.start, seq |-> x.jsb.seq]
 TReplayed == /\ IsEvent("replayed") /\ phase = "dmg" /\ nr = 1
+             /\ Halves(Tr[l].seq32) = Conc(jc, Tr[l].jsb.seq)      \* the offset the generator continues from IS the s_sequence found on the image
              /\ fs' = Tr[l].obs /\ jsb' = JsbOf(Tr[l]) /\ nr' = Tr[l].nro
              /\ res' = [err |-> Rec.err, end |-> Rec.end, devs |-> Rec.devs, reason |-> Rec.reason, final |-> Final, jsbafter |-> JsbAfter]
              /\ phase' = "replayed"
@@ -93,7 +100,7 @@ TraceSound == (phase = "dmg") => GroundTruthSound
 
 \* ------------------------------------------------------------------ side output
 SetToSeq2(S) == IF S = {} THEN <<>> ELSE
-   LET names == <<"AsyncLastBadCommit", "CommitBreakContinues", "ReplayPastBadTag", "ScanAbort">> IN
+   LET names == <<"AsyncLastBadCommit", "CommitBreakContinues", "ReplayPastBadTag", "ScanAbort", "TidZeroUnset">> IN
    SelectSeq(names, LAMBDA n : n \in S)
 OutOf(cf, x) ==
    LET j  == [start |-> x.jsb.start, seq |-> x.jsb.seq]
@@ -103,6 +110,7 @@ OutOf(cf, x) ==
    IN [final |-> f, model |-> r.fs, err |-> r.err, devs |-> SetToSeq2(r.devs), reason |-> r.reason,
        end |-> r.end, failed |-> r.failed, nvalid |-> Len(ValidPrefix(x.hist)), seqafter |-> a.seq,
        seqmodel |-> IF r.err = "" THEN r.end + 1 ELSE j.seq,
+       seqafter32 |-> Conc(cf, a.seq), seqmodel32 |-> Conc(cf, IF r.err = "" THEN r.end + 1 ELSE j.seq),
        ringdead |-> IF \A t \in RingTids(x.log) : t < a.seq THEN 1 ELSE 0]
 OutLine(n) ==
    LET x == Tr[n] IN
@@ -110,7 +118,8 @@ OutLine(n) ==
         LET ld == Tr[n - 2]  cf == CfgOf(ld)  o1 == OutOf(cf, ld)  o2 == OutOf(cf, x)
         IN [e |-> "restart", restartable |-> IF o1.err = "" /\ o1.devs = <<>> /\ o1.ringdead = 1 THEN 1 ELSE 0,
             final |-> o2.final, model |-> o2.model, err |-> o2.err, devs |-> o2.devs, reason |-> o2.reason, end |-> o2.end,
-            nvalid |-> o2.nvalid, seqafter |-> o2.seqafter, seqmodel |-> o2.seqmodel]
+            nvalid |-> o2.nvalid, seqafter |-> o2.seqafter, seqmodel |-> o2.seqmodel,
+            seqafter32 |-> o2.seqafter32, seqmodel32 |-> o2.seqmodel32]
    ELSE IF x.e # "load" THEN [e |-> x.e]
    ELSE [e |-> "load"] @@ OutOf(CfgOf(x), x)
 ASSUME ndJsonSerialize(IOEnv.TRACE \o ".out", [n \in 1..Len(Tr) |-> OutLine(n)])
